@@ -251,20 +251,22 @@ func (vPersistentSet) Stop() {}
 // ---------------------------------------------------------------- one run
 
 type vE2ERun struct {
-	scn     *vE2EScenario
-	rec     *vRec
-	rnd     *rand.Rand
-	cluster *arvados.Cluster
-	queue   *test.Queue
-	qwrap   *vQueueWrap
-	sd      *test.StubDriver
-	sis     cloud.InstanceSet
-	disp    *dispatcher
-	logger  logrus.FieldLogger
-	vmMu    sync.Mutex
-	vms     []*test.StubVM
-	release chan struct{} // closed to let blocked ExecuteContainer calls return (kf scenario)
-	nVM     int
+	scn       *vE2EScenario
+	rec       *vRec
+	rnd       *rand.Rand
+	cluster   *arvados.Cluster
+	queue     *test.Queue
+	qwrap     *vQueueWrap
+	sd        *test.StubDriver
+	sis       cloud.InstanceSet
+	disp      *dispatcher
+	logger    logrus.FieldLogger
+	vmMu      sync.Mutex
+	vms       []*test.StubVM
+	release   chan struct{} // closed to let blocked ExecuteContainer calls return (kf scenario)
+	nVM       int
+	deaf      *test.StubVM // kf scenario: the VM that stopped answering before the restart
+	restarted bool
 }
 
 func (e *vE2ERun) newDispatcher() {
@@ -343,6 +345,7 @@ func (e *vE2ERun) setupVM(svm *test.StubVM) {
 		if pre {
 			others = append(others, me)
 		}
+		deaf := true // every other live process is on the VM this scenario made deaf before the restart
 		e.vmMu.Lock()
 		vms := append([]*test.StubVM(nil), e.vms...)
 		e.vmMu.Unlock()
@@ -350,6 +353,9 @@ func (e *vE2ERun) setupVM(svm *test.StubVM) {
 			if o != svm && o.VExists() {
 				if _, alive := o.VProcs()[uuid]; alive {
 					others = append(others, vE2EInst(o.VID()))
+					if o != e.deafVM() {
+						deaf = false
+					}
 				}
 			}
 		}
@@ -357,9 +363,22 @@ func (e *vE2ERun) setupVM(svm *test.StubVM) {
 		if _, alive := svm.VProcs()[uuid]; !alive {
 			others = []int{}
 		}
-		e.rec.log(map[string]interface{}{"ev": "procsnap", "c": c, "w": me, "others": others})
+		e.rec.log(map[string]interface{}{"ev": "procsnap", "c": c, "w": me, "others": others,
+			"others_deaf": len(others) > 0 && !pre && deaf && e.restartedNow()})
 		return rc
 	}
+}
+
+func (e *vE2ERun) deafVM() *test.StubVM {
+	e.vmMu.Lock()
+	defer e.vmMu.Unlock()
+	return e.deaf
+}
+
+func (e *vE2ERun) restartedNow() bool {
+	e.vmMu.Lock()
+	defer e.vmMu.Unlock()
+	return e.restarted
 }
 
 var vRndMu sync.Mutex
@@ -521,6 +540,9 @@ func vE2EOne(t *testing.T, scn *vE2EScenario, tw *vTraceWriter, hostpriv ssh.Sig
 		e.rec.events = vAppend(e.rec.events, map[string]interface{}{"ev": "restart"})
 		e.rec.mu.Unlock()
 		restarted = true
+		e.vmMu.Lock()
+		e.restarted = true
+		e.vmMu.Unlock()
 		e.newDispatcher()
 	}
 	setIB := func(id cloud.InstanceID, b worker.IdleBehavior) {
@@ -612,6 +634,7 @@ func vE2EOne(t *testing.T, scn *vE2EScenario, tw *vTraceWriter, hostpriv ssh.Sig
 			e.vms[0].Lock()
 			e.vms[0].Broken = time.Now()
 			e.vms[0].Unlock()
+			e.deaf = e.vms[0]
 		}
 		e.vmMu.Unlock()
 		doRestart()
